@@ -105,6 +105,9 @@ func (s *SFlow) run() {
 		logger.Fatal(err)
 	}
 
+	// the workers read this flag: it is set before they are started
+	sFlowMirrorEnabled = opts.SFlowMirrorAddr != ""
+
 	atomic.AddInt32(&s.stats.Workers, int32(s.workers))
 	for i := 0; i < s.workers; i++ {
 		go func() {
